@@ -356,3 +356,11 @@ def d5(cx: Cx, ob: Ob) -> None:
             kk, vv = t[2][1], t[2][2]
             if kk != ("attr", tgt, k) or vv != ("attr", tgt, v):
                 ob.violate(fn.qualname, fn.where, f"{name} maps `{show(kk)}` -> `{show(vv)}`; expected {k} -> {v}", detail="roles")
+
+
+
+@obligation("C04-X3", "no memoised derived values (cached_property / lru_cache) on Record, Reference or Converter objects, which are changed in place or copied with updates", floor=3)
+def x3(cx: Cx, ob: Ob) -> None:
+    from ..rules import cached_derivations
+
+    cached_derivations(cx, ob)
